@@ -513,6 +513,7 @@ func checkC20(p *Prog, rp *Report) {
 			fill(src, srcProblems, "9 listed names (empty, ., .., ../x, absolute, sub/x, x/../../y, sibling-directory prefix, plain): no filesystem call ever names a path outside the control file's directory and the destination")
 		}
 	}
+	c20Path(p, rp)
 	hf := rp.Rule("C20-HANDLEFIELD", "the handle's path cannot be set from inside the document", 2)
 	tagRule(p, hf, func(doc string, ti tagInfo, kind string) bool { return kind == "go-only" })
 	c20Clean(p, rp)
@@ -633,4 +634,90 @@ func hasPrefix(list []string, prefix, suffix string) bool {
 		}
 	}
 	return false
+}
+
+// c20Path: the handle made by ParseDscFile / ParseChangesFile names the file the caller named: its Filename is the
+// absolute form of the given path and nothing else (a symbolic link is not resolved: "the control file's own
+// directory" is the directory of the path the caller gave, and Remove deletes that path, not what it points to),
+// and the file opened for parsing is that path.
+func c20Path(p *Prog, rp *Report) {
+	r := rp.Rule("C20-PATH", "the handle records the absolute form of the path the caller gave, and that file is the one parsed", 2)
+	for _, c := range []struct{ ctor, typ string }{{"ParseDscFile", "DSC"}, {"ParseChangesFile", "Changes"}} {
+		fn := p.Func("control", c.ctor)
+		t := p.Named("control", c.typ)
+		key := "control." + c.ctor
+		if fn == nil || t == nil {
+			r.bad(key, "", "function not found", nil)
+			continue
+		}
+		pos := p.Pos(fn.Pos())
+		m := NewMachine(p, nil)
+		installStringModels(m)
+		installIOGlobals(m)
+		var opened []string
+		str := func(v Val) string { s, _ := v.(string); return s }
+		m.Hooks["path/filepath.Abs"] = func(m *Machine, st *State, call *ssa.CallCommon, args []Val) ([]Val, bool) {
+			return []Val{&TupleV{E: []Val{"/abs/" + str(args[0]), nilV{}}}}, true
+		}
+		m.Hooks["path/filepath.EvalSymlinks"] = func(m *Machine, st *State, call *ssa.CallCommon, args []Val) ([]Val, bool) {
+			return []Val{&TupleV{E: []Val{"/elsewhere/pool/hello_1.0.dsc", nilV{}}}}, true
+		}
+		m.Hooks["os.Readlink"] = func(m *Machine, st *State, call *ssa.CallCommon, args []Val) ([]Val, bool) {
+			return []Val{&TupleV{E: []Val{"../pool/hello_1.0.dsc", nilV{}}}}, true
+		}
+		m.Hooks["os.Open"] = func(m *Machine, st *State, call *ssa.CallCommon, args []Val) ([]Val, bool) {
+			opened = append(opened, str(args[0]))
+			id := st.alloc(types.Typ[types.Int], OpaqueV{"file:" + str(args[0])})
+			return []Val{&TupleV{E: []Val{Ptr{Obj: id}, nilV{}}}}, true
+		}
+		m.Hooks["(*os.File).Close"] = func(m *Machine, st *State, call *ssa.CallCommon, args []Val) ([]Val, bool) {
+			return []Val{nilV{}}, true
+		}
+		m.Hooks["bufio.NewReader"] = func(m *Machine, st *State, call *ssa.CallCommon, args []Val) ([]Val, bool) {
+			id := st.alloc(types.Typ[types.Int], OpaqueV{"bufio"})
+			return []Val{Ptr{Obj: id}}, true
+		}
+		// the content of the document does not matter here
+		okNil := func(m *Machine, st *State, call *ssa.CallCommon, args []Val) ([]Val, bool) { return []Val{nilV{}}, true }
+		m.Hooks[repoModule+"/control.Unmarshal"] = okNil
+		m.Hooks["(*"+repoModule+"/control.Decoder).Decode"] = okNil
+		st := initState(m, "control")
+		if st.Status == stStuck {
+			r.undecided(key, pos, st.Msg)
+			continue
+		}
+		st.Status = stRun
+		st.push(fn, []Val{"queue/hello_1.0.dsc"}, nil)
+		out := m.Run(st)
+		if len(out) != 1 || out[0].Status != stRet {
+			r.undecided(key, pos, retDesc(out))
+			continue
+		}
+		tv, ok := st.Ret.(*TupleV)
+		if !ok || len(tv.E) != 2 {
+			r.undecided(key, pos, "unexpected result shape")
+			continue
+		}
+		var problems []string
+		if _, errNil := tv.E[1].(nilV); !errNil {
+			problems = append(problems, "a readable file is refused")
+		} else if hp, isPtr := tv.E[0].(Ptr); !isPtr {
+			problems = append(problems, "no handle is returned")
+		} else {
+			hv, _ := st.load(hp)
+			sv, _ := hv.(*StructV)
+			fi := fieldIndex(structOf(t), "Filename")
+			if sv == nil || fi < 0 {
+				r.undecided(key, pos, "the handle has no Filename")
+				continue
+			}
+			if got, _ := sv.F[fi].(string); got != "/abs/queue/hello_1.0.dsc" {
+				problems = append(problems, fmt.Sprintf("given queue/hello_1.0.dsc (a symbolic link into another directory), the handle's Filename is %q, want the absolute form of the path given, /abs/queue/hello_1.0.dsc: Copy, Move and Remove take the directory of Filename for the control file's own directory and act on Filename itself", got))
+			}
+			if len(opened) != 1 || (opened[0] != "/abs/queue/hello_1.0.dsc" && opened[0] != "queue/hello_1.0.dsc") {
+				problems = append(problems, fmt.Sprintf("the file(s) opened for parsing are %q, want the path given", opened))
+			}
+		}
+		fillProblems(r, key, pos, problems, "Filename = filepath.Abs(path), the file parsed is that path; a symbolic link is not resolved")
+	}
 }
